@@ -419,3 +419,84 @@ contract(
     bounded=dict(scope="every key of the real CSS3_COLORMAP (as is, upper-cased, padded): exhaustive over the finite "
                        "name table", reason="finite ground enumeration of a constant table"),
 )
+
+
+# --------------------------------------------------------------------- Unit (ODF lengths: C18 "length")
+_LENGTH_RE = _re.compile(r"-?([0-9]+(\.[0-9]*)?|\.[0-9]+)(cm|mm|in|pt|pc|px)")
+_UNITS = ["cm", "mm", "in", "pt", "pc", "px"]
+
+
+def _gen_unit(con, sigcase, count, seed):
+    import random
+    from decimal import Decimal
+    rnd = random.Random(seed)
+    nums = [0, 1, -1, 3, 283, -283, 0.5, -0.5, 1.847, -1.847, 3.14, 2.54, 1e-7, -1e-7, 1e21, 123456.789,
+            Decimal("0"), Decimal("1.50"), Decimal("-2.75"), Decimal("1E+3"), Decimal("1E-7"), Decimal("-0.001"),
+            Decimal("12345678901234567890.123456789")]
+    for n in nums:
+        for u in _UNITS:
+            yield {"mode": "value", "value": n, "unit": u}
+    for _ in range(count * 2):
+        n = rnd.choice([rnd.randint(-10000, 10000), round(rnd.uniform(-500, 500), rnd.randint(0, 6)),
+                        Decimal(rnd.randint(-10**9, 10**9)).scaleb(-rnd.randint(0, 9))])
+        yield {"mode": "value", "value": n, "unit": rnd.choice(_UNITS)}
+    for s in ["1.847mm", "-1.5cm", "+2pt", ".5in", "5.cm", "0cm", "-0.25in", "10px", "12", "3.5",
+              # outside the lexical form of a length
+              "cm1", "1 cm", "1,5cm", "1.5e3cm", "1.2.3cm", "", "cm", "--1cm", "1-cm", "1cm2", "١cm", "１cm", "1 c m"]:
+        yield {"mode": "text", "text": s}
+
+
+def _call_unit(con, fn, argvals, labels):
+    from decimal import Decimal
+    from odfdo.datatype import Unit
+    from pyvc.native import NativeResult
+    res = NativeResult()
+    res.checked = 2
+    if argvals["mode"] == "value":
+        v, u = argvals["value"], argvals["unit"]
+        unit = Unit(v, u)
+        exp = Decimal(str(v)) if isinstance(v, float) else Decimal(v)
+        txt = str(unit)
+        res.outcome = txt
+        if not _LENGTH_RE.fullmatch(txt):
+            res.failures.append(("ensures:unit-lexical", f"str(Unit({v!r}, {u!r})) = {txt!r} is not an ODF length"))
+        try:
+            back = Unit(txt)
+            if (back.value, back.unit) != (exp, u):
+                res.failures.append(("ensures:unit-roundtrip", f"Unit({txt!r}) gives ({back.value!r}, {back.unit!r}) for "
+                                                               f"Unit({v!r}, {u!r})"))
+        except Exception as e:  # noqa
+            res.failures.append(("ensures:unit-roundtrip", f"Unit({txt!r}) raised {e!r}"))
+        return res
+    s = argvals["text"]
+    bare = _re.fullmatch(r"[+-]?([0-9]+(\.[0-9]*)?|\.[0-9]+)", s)         # a bare number takes the default unit
+    m = _re.fullmatch(r"([+-]?([0-9]+(\.[0-9]*)?|\.[0-9]+))(cm|mm|in|pt|pc|px)", s)
+    try:
+        got = Unit(s)
+    except Exception as e:  # noqa
+        res.outcome = f"raised {type(e).__name__}"
+        if m or bare:
+            res.failures.append(("ensures:unit-decode", f"Unit({s!r}) raised {e!r} for a well-formed length"))
+        return res
+    res.outcome = f"({got.value!r}, {got.unit!r})"
+    if m:
+        if (got.value, got.unit) != (Decimal(m.group(1)), m.group(4)):
+            res.failures.append(("ensures:unit-decode", f"Unit({s!r}) gives ({got.value!r}, {got.unit!r})"))
+    elif bare:
+        if (got.value, got.unit) != (Decimal(s), "cm"):
+            res.failures.append(("ensures:unit-decode", f"Unit({s!r}) gives ({got.value!r}, {got.unit!r})"))
+    else:
+        res.failures.append(("ensures:unit-rejects", f"Unit({s!r}) is accepted as ({got.value!r}, {got.unit!r}) although "
+                                                     f"the string is not a length"))
+    return res
+
+
+contract(
+    "odfdo.datatype:Unit",
+    sig=dict(mode=Str),
+    ensures=[Clause(lab, P18, lambda a, r, p: True) for lab in ("unit-lexical", "unit-roundtrip", "unit-decode", "unit-rejects")],
+    gen=_gen_unit, call_native=_call_unit,
+    bounded=dict(scope="23 boundary numbers (ints, floats, Decimals; negative, tiny, huge, exponent forms) x 6 units plus random "
+                       "numbers (100 quick / 4000 thorough); 23 strings (10 well-formed lengths, 13 outside the form)",
+                 reason="Decimal arithmetic and a character loop building two buffers (outside the executor's fragment)"),
+)
